@@ -35,6 +35,8 @@ WExact(e, reg, L) ==
        [] e.op = "npot" -> Exact(IF ZIsZero(x) THEN ZI(1)
                                  ELSE IF Fits(NextPow2(x), L) THEN NextPow2(x) ELSE Z0)
        [] e.op = "from_int" -> Exact(ZShl(ZJ(e.n), f))
+       [] e.op = "from_float" ->                                  \* a non-finite float panics (marked like a zero divisor)
+            LET fl == FDec(ZJ(e.fb), e.ft) IN IF fl.cls = "fin" THEN Exact(FloatToFixR(fl, f)) ELSE ZeroDiv
        [] e.op = "sum" ->
             LET RECURSIVE S(_)
                 S(i) == IF i = 0 THEN Z0 ELSE ZAdd(S(i - 1), reg[e.as[i]])
@@ -52,7 +54,7 @@ WVerdict(e, reg, L) ==
   IF e.k # "w" THEN "ok"
   ELSE IF WUnpinned(e, L) THEN (IF IsPanic(e.r) THEN "" ELSE "ok")
   ELSE LET x == WExact(e, reg, L) IN
-       IF x.zd THEN "ok"                                   \* a zero divisor may panic
+       IF x.zd THEN (IF e.op = "from_float" /\ ~IsPanic(e.r) THEN "" ELSE "ok")   \* a zero divisor may panic; a non-finite float must
        ELSE IF ValIs(e.r, Wrap(x.R, L)) THEN "ok"
        ELSE IF e.op \in {"div_euclid", "div_euclid_int"}
                /\ ValIs(e.r, CodedOvf(IF e.op = "div_euclid" THEN "bin" ELSE "bini", reg[e.a],
